@@ -24,7 +24,10 @@ def diagnose(kind, case):
 
 
 def part_split(sh, res):
-    cu = tree.csv_utils()
+    split = tree.split_function()
+    if split is None:
+        res.feat('helper_level_absent')
+        return
     o = sh['o']
     cases, meta = [], []
     for dlm in sh['dlms']:
@@ -45,7 +48,9 @@ def part_split(sh, res):
         res.states += 1
         res.transitions += 1 if line else 0
         try:
-            p = cu.smart_split(line, dlm, policy, preserve)
+            p = split(line, dlm, policy, preserve)
+            if p is None or out.get('skip'):
+                continue
             p = (list(p[0]), bool(p[1]))
         except Exception as e:
             p = ('EXC', repr(e))
@@ -60,6 +65,9 @@ def part_split(sh, res):
 
 def part_quote(sh, res):
     cu = tree.csv_utils()
+    if not (hasattr(cu, 'quote_field') and hasattr(cu, 'rfc_quote_field')):
+        res.feat('helper_level_absent')
+        return
     o = sh['o']
     cases, meta = [], []
     for dlm in sh['dlms']:
